@@ -747,6 +747,24 @@ def run(ck):
                             "parameters are given in 1/cm (same values)" % un_, {"params_cm": prm, "units": un_}, dv_)
     except Exception as e:
         ck.fail("raises:bath-function-params", "raised %r" % (e,), {})
+    # setter/getter pairs of the Molecule for quantities that are energies: what is supplied under a units context reads back under it
+    try:
+        for un_ in ("1/cm", "eV", "THz"):
+            m.current_units["energy"] = "1/fs"; m._in_eu_count = 0; m._in_energy_units_context = False
+            val_ = float(qr.convert(100.0, "1/cm", to=un_))
+            with energy_units(un_):
+                mw_ = Molecule([0.0, float(qr.convert(12000.0, "1/cm", to=un_))])
+                mw_.set_transition_width((0, 1), val_)
+                back_ = float(mw_.get_transition_width((0, 1)))
+            stored_ = float(mw_.get_transition_width((0, 1)))
+            ck.case(("molecule-width-accessor", un_), nontrivial=True, accessor="Molecule.set/get_transition_width")
+            if abs(stored_ - float(qr.convert(100.0, "1/cm", "int"))) > 1e-12 * stored_:
+                ck.fail("accessor:transition_width:stored", "a transition width supplied under energy_units(%r) is not stored as its conversion" % un_, {"units": un_, "value": val_}, stored_)
+            if abs(back_ - val_) > 1e-9 * abs(val_):
+                ck.fail("accessor:get_transition_width", "Molecule.get_transition_width() read under energy_units(%r) does not return the width in these units "
+                        "(the setter converts, the getter hands out the stored internal value)" % un_, {"units": un_, "supplied": val_}, back_, val_)
+    except Exception as e:
+        ck.fail("raises:molecule-width-accessor", "raised %r" % (e,), {})
     # whole-number values handed over as an integer array (800 nm, 12000 1/cm, 2 eV): stored as the exact conversion of the numbers
     try:
         from quantarhei import Hamiltonian
